@@ -162,7 +162,7 @@ def check_requirement(F, f, block, req):
         return False, f"the site is reachable without the `{callee}` == {pol} outcome"
     if kind == "after":
         callee = ":".join(parts[1:])
-        cs = calls_to(f, callee)
+        cs = [x for alt in callee.split("|") for x in calls_to(f, alt)]        # `a|b`: either search establishes the fact
         if any(f.node_dominates(b, block) for b, t in cs):
             return True, ""
         return False, f"the site is not preceded by a call to `{callee}` on every path"
@@ -457,6 +457,7 @@ def iterator_class(F: Facts, ty: str, local_iter_types):
     t = norm(ty)
     t = re.sub(r"^&(mut )?", "", t)
     t = re.sub(r"\{closure@[^}]*\}", "closure", t)
+    t = re.sub(r"\{[^{}]*\}", "", t)          # fn-item annotation of `map(str::trim)`: `fn(&str) -> &str {core::str::<impl str>::trim}`
     if "impl " in t or "dyn " in t:
         return "generic"
     names = type_names(t)
